@@ -75,9 +75,17 @@ def gen_methods(rng, n, with_dup_path=False):
 def render_idl(methods):
     out = [IDL_PRELUDE, "interface IL2 {"]
     for name, ps in methods:
+        if is_absent(name):
+            out.append("  #[optional]")
         out.append("  method %s(%s);" % (name, ", ".join("%s %s%s %s" % (d, t, sh or "", pn) for d, t, sh, pn in ps)))
     out.append("};")
     return "\n".join(out) + "\n"
+
+
+def is_absent(name):
+    """methods called x<k> are #[optional] and no implementation side provides them: every skeleton
+    refuses the call (Object_ERROR_INVALID) without entering anything and without touching a count"""
+    return name.startswith("x")
 
 
 def positions(ps, d):
@@ -175,6 +183,8 @@ def c_side(methods):
                 else:
                     sig.append("Object *%s" % pn)
                     post.append("  *%s = cobj_get(pat_out(%d, %d, v));" % (pn, k, pout[(i, None)]))
+        if is_absent(name):
+            continue
         A.append("static int32_t cimpl_%s(%s) {\n  (void)me; int v = sc_val(); (void)v;\n  L_begin(\"impl\", %d, v);\n%s\n  L_end();\n"
                  "  if (sc_status()) return sc_status();\n%s\n  return Object_OK;\n}\n" % (name, ", ".join(sig), k, "\n".join(log), "\n".join(post)))
     A.append("static IL2_DEFINE_INVOKE(c_skel_invoke, cimpl_, CImpl *)\n")
@@ -292,6 +302,8 @@ def cpp_side(methods):
                 else:
                     sig.append("%s &%s" % (cls, pn))
                     post.append("    { Object o = cobj_get(pat_out(%d, %d, v)); %s.consume(o); }" % (k, pout[(i, None)], pn))
+        if is_absent(name):
+            continue
         A.append("  int32_t %s(%s) override {\n    int v = sc_val(); (void)v;\n    L_begin(\"impl\", %d, v);\n%s\n    L_end();\n"
                  "    if (sc_status()) return sc_status();\n%s\n    return Object_OK;\n  }" % (name, ", ".join(sig), k, "\n".join(log), "\n".join(post)))
     A.append("};\n")
@@ -445,6 +457,8 @@ def rust_side(methods, tests, out, nval):
                 else:
                     retty.append(rust_ty(t, True))
                     rets.append("mk(pat_out(%d, %d, v))" % (k, pout[(i, None)]))
+        if is_absent(name):
+            continue
         A.append("    fn r#%s(%s) -> Result<(%s), Error> {\n      unsafe {\n        let v = sc_val();\n        L_begin(b\"impl\\0\".as_ptr(), %d, v);\n%s\n        L_end();\n"
                  "        if sc_status() != 0 { return Err(std::mem::transmute::<i32, Error>(sc_status())); }\n        Ok((%s))\n      }\n    }"
                  % (name, ", ".join(sig), ", ".join(retty), k, "\n".join(log), ", ".join(rets)))
